@@ -794,6 +794,8 @@ fn ref_qratio_f32(q: u32, q3: u32) -> u8 {
 lemma_f!(f_short_main, GShort, sym_short, 48, 12, None::<u32>, false, 52, 7, false);
 //@ h=f_normal_main props=C01,C10,C11,C15,C03 cfgs=K1 tier=q t=1500 native=native_f_normal | funcs: inner::Generator<Normal>::finalize_with_options, naive aggregate_128 | bound: as f_short_main with 128 counters, but the three quartiles are ANY q1<=q2<=q3 (superset of the real order statistics; the honest order-statistic model is used on the 48-counter instance of the same generic code) | stubs: select_nth_unstable order-statistic model; FuzzyHashLengthEncoding::new contract
 lemma_f!(f_normal_main, GNormal, sym_normal, 128, 32, None::<u32>, false, 132, 7, true);
+//@ h=f_normal_main_h props=C01,C10 cfgs=K1 tier=t t=3600 native=native_f_normal | funcs: inner::Generator<Normal>::finalize_with_options | bound: as f_short_main with 128 counters and the HONEST order-statistic model (quartiles tied to the counters by counting) | stubs: select_nth_unstable order-statistic model; FuzzyHashLengthEncoding::new contract
+lemma_f!(f_normal_main_h, GNormal, sym_normal, 128, 32, None::<u32>, false, 132, 7, false);
 //@ h=f_normall_main props=C01,C10,C11,C15 cfgs=K1 tier=t t=1800 native=native_f_normall | funcs: inner::Generator<NormalWithLongChecksum>::finalize_with_options | bound: as f_short_main with 128 counters, but the three quartiles are ANY q1<=q2<=q3 (superset of the real order statistics; the honest order-statistic model is used on the 48-counter instance of the same generic code), 3-byte checksum | stubs: select_nth_unstable order-statistic model; FuzzyHashLengthEncoding::new contract
 lemma_f!(f_normall_main, GNormalL, sym_normal_l, 128, 32, None::<u32>, false, 132, 7, true);
 //@ h=f_long_main props=C01,C10,C11,C15 cfgs=K1 tier=t t=3600 native=native_f_long | funcs: inner::Generator<Long>::finalize_with_options, naive aggregate_256 | bound: as f_short_main with 256 counters, but the three quartiles are ANY q1<=q2<=q3 (superset of the real order statistics) | stubs: select_nth_unstable order-statistic model; FuzzyHashLengthEncoding::new contract
